@@ -11,7 +11,8 @@ tag that selects the `v` / `is_complete` override.
 
 `Rational64` is modelled by exact fractions `Frac` (numerator : Int, denominator : Nat)
 kept in lowest terms, as `num_rational::Ratio` keeps them; 64-bit overflow of the
-intermediate products is outside the universe of the property (v ≤ 8, ≤ 24 orbits).
+intermediate products is outside the universe of the property (explored: v ≤ 15, ≤ 42 chambers;
+see `assumptions` in conf/C08.json).
 -/
 import DSymVerif.Model.DSym
 
@@ -328,8 +329,10 @@ def cornerDegrees (s : Sym) : Outcome (List Nat) :=
   | .err => .err
   | .panic => .panic
 
-/-- **monitor** (premise of the conditional Gauss–Bonnet theorem of Props/C08.lean, evaluated by
-    the driver on every explored symbol): the boundary tracing collected every mirror corner
+/-- **monitor** (evaluated by the driver on every explored symbol; since Props/C08.lean sections
+    11–12 a redundant cross-check: every conjunct is a theorem for connected good symbols —
+    `trace_boundary_corners_exact`, `parity_monitor_holds`, `genus_monitor_holds`): the boundary
+    tracing collected every mirror corner
     exactly once (as a multiset: the corners of all boundary components together are the corner
     census), an orientable symbol has an even `2 - χ` (so that `x / 2` handles lose nothing), and
     the symbol is closed without cross-cap exactly when the D-symbol is oriented. -/
@@ -341,17 +344,18 @@ def symbolExact (s : Sym) : Bool :=
     ((bnds.isEmpty && (o.orientable || o.count == 0)) == s.view.isOriented)
   | _, _, _ => false
 
-/-- the premise of Gauss–Bonnet that is not a theorem: an orientable symbol has an even `2 - χ`
-    (so that the `x / 2` handles lose nothing); vacuous for non-orientable symbols -/
+/-- the parity premise of `gauss_bonnet_conditional`: an orientable symbol has an even `2 - χ`
+    (so that the `x / 2` handles lose nothing); vacuous for non-orientable symbols.  A theorem
+    whenever `orbifold_symbol` answers (`parity_monitor_holds`, Props/C08.lean). -/
 def parityMonitor (s : Sym) : Bool :=
   match traceBoundary s, orbifoldSymbol s with
   | .ok bnds, .ok o =>
     !o.orientable || (2 - (eulerCharacteristic s + (bnds.length : Int))) % 2 == 0
   | _, _ => false
 
-/-- the part of the monitor that is not a theorem (Props/C08.lean proves the corner part for every
-    valid symbol): an orientable symbol has an even `2 - χ`, and the symbol is closed without
-    cross-cap exactly when the D-symbol is oriented. -/
+/-- the genus part of the monitor: an orientable symbol has an even `2 - χ`, and the symbol is
+    closed without cross-cap exactly when the D-symbol is oriented.  A theorem for connected
+    symbols (`genus_monitor_holds`, Props/C08.lean). -/
 def genusMonitor (s : Sym) : Bool :=
   match traceBoundary s, orbifoldSymbol s with
   | .ok bnds, .ok o =>
